@@ -60,6 +60,21 @@ def run(ctx):
             letters_judged += bool(info.get("letters_judged"))
             if res:
                 bad.append({"group": n, "complaints": res, "atoms": crystals.atoms_to_json(a), "presentation": desc, "meta": meta})
+    # directed: the only upper-case Wyckoff letter of the tables (47 A, the general position of Pmmm) occupied together with special positions
+    for occ in ([("A", 6), ("a", 8)], [("A", 8), ("h", 14), ("i", 6)], [("A", 14)]):
+        try:
+            a47, _, _ = S.rational_crystal(47, occ, rng)
+            res, info = S.check_orbits(a47, 47)
+        except Exception as e:  # noqa
+            res, info = ["exception %s: %s" % (type(e).__name__, str(e)[:200])], {}
+        if res is None:
+            ctx.count("e2e_discarded_group_changed")
+            continue
+        ctx.case(("orbits", 47, "directed-upper-case-letter", str(occ)))
+        ctx.count("e2e_group47_general_position")
+        letters_judged += bool(info.get("letters_judged"))
+        if res:
+            bad.append({"group": 47, "complaints": res, "atoms": crystals.atoms_to_json(a47), "presentation": {"directed": "47 A occupied"}, "meta": {"occupation": str(occ)}})
     ctx.coverage["letters_compared_with_independent_assignment"] = letters_judged
     for b in bad[:6]:
         ctx.finding("crystal:%d:%s" % (b["group"], b["complaints"][0][:40]), "group %d: %s" % (b["group"], b["complaints"][0]), {"kind": "failing-input", "case": b})
